@@ -7,3 +7,5 @@ import WrglModel.Props.C08
 #print axioms Wrgl.C08_terminates
 #print axioms Wrgl.C08_steps_exponential
 #print axioms Wrgl.C08_all_wants
+#print axioms Wrgl.C08_accepts_reachable_wants
+#print axioms Wrgl.C08_process_sound
